@@ -109,12 +109,12 @@ Qed.
 (** Number and Time addressing give the same reference segment, hence the same audio segment:
     the request for the time the audio timeline lists for segment [n] is answered exactly like the
     request for number [startNr + n]. *)
-Lemma audio_request_time_eq_number fx tab n now :
+Lemma audio_request_time_eq_number tab n now :
   0 <= n -> 0 <= startNr c -> startNr c + n < two32 ->
   F * r <= (E vr n - S vr n) * a ->
   r < two64 -> f (S vr n) * r < two64 -> E vr n < two63 -> D < two64 ->
-  AudioRef.audio_request fx vr loopMS c F a tab ByTime (f (S vr n)) now =
-  AudioRef.audio_request fx vr loopMS c F a tab ByNumber (startNr c + n) now.
+  AudioRef.audio_request vr loopMS c F a tab ByTime (f (S vr n)) now =
+  AudioRef.audio_request vr loopMS c F a tab ByNumber (startNr c + n) now.
 Proof.
   intros Hn Hs0 Hs32 Hlong Hr64 Ht64 HE63 HD64.
   pose proof (wf_ts _ _ W) as Hr.
@@ -135,19 +135,18 @@ Qed.
 (** The whole handler path for $Number$ addressing: availability as for the reference (video)
     segment [n] (C01/C04), and when available the segment of C03_frames with sequence number
     [startNr + n]. *)
-Lemma audio_request_number fx tab n now :
+Lemma audio_request_number tab n now :
   0 <= n -> 0 <= startNr c -> startNr c + n < two32 ->
   AudioProofs.ref_pre r F a vr tab n ->
-  fx = true \/ AudioProofs.ref_not_inner r F a vr tab n ->
   F < two32 -> r < two64 -> E vr n < two64 -> D < two64 -> sdur (segAt vr (n mod N)) < two32 ->
-  AudioRef.audio_request fx vr loopMS c F a tab ByNumber (startNr c + n) now =
+  AudioRef.audio_request vr loopMS c F a tab ByNumber (startNr c + n) now =
   timed (checkTime (E vr n + startS c * r) r now (tsbdS c) (ato c))
         (TOk {| Audio.o_tfdt := f (S vr n); Audio.o_seq := startNr c + n;
                 Audio.o_frames :=
                   map (fun g => Z.min (g - AudioProofs.fidx r F a (AudioProofs.loop_start vr n)) (AudioProofs.tot tab - 1))
                       (Audio.rangeZ (AudioProofs.fidx r F a (S vr n)) (AudioProofs.fidx r F a (E vr n))) |}).
 Proof.
-  intros Hn Hs0 Hs32 Hpre Hni HF32 Hr64 HE64 HD64 Hdur.
+  intros Hn Hs0 Hs32 Hpre HF32 Hr64 HE64 HD64 Hdur.
   pose proof (wf_ts _ _ W) as Hr.
   assert (HS0 : 0 <= S vr n) by (apply (S_nonneg vr loopMS n W Hn)).
   pose proof (S_lt_E vr loopMS W n Hn) as HSE.
@@ -164,7 +163,7 @@ Proof.
   rewrite (u64_small (E vr n)) by lia.
   pose proof (repDuration_pos vr loopMS W).
   rewrite (u64_small D) by lia. rewrite (u64_small r) by lia.
-  rewrite (AudioProofs.ref_served_frames r F a Hr HF HF32 Ha vr loopMS W fx (startNr c + n) tab n Hpre Hni).
+  rewrite (AudioProofs.ref_served_frames r F a Hr HF HF32 Ha vr loopMS W (startNr c + n) tab n Hpre).
   reflexivity.
 Qed.
 
